@@ -7,6 +7,6 @@ git -C /repo worktree add -q $wt HEAD
 git -C $wt apply "$patch"
 for id in "$@"; do
   echo "=== $id against $patch"
-  VERIF_REPO=$wt timeout 3000 /verif/check $id --tier quick 2>&1 | grep -E "VIOLATION|signature=|KNOWN-FINDING|exit=|MACHINERY" | head -12 || true
+  VERIF_REPO=$wt timeout 3000 /verif/check $id --tier quick 2>&1 | grep -E "VIOLATION|signature=|KNOWN-FINDING|exit=|MACHINERY" | head -40 || true
 done
 git -C /repo worktree remove --force $wt
